@@ -26,8 +26,7 @@ type STUNConn struct {
 }
 
 const (
-	stunHeaderSize     = 20
-	channelDataPadding = 4
+	stunHeaderSize = 20
 )
 
 // Given a buffer give the last offset of the TURN frame
@@ -35,32 +34,32 @@ const (
 // or the length doesn't match return false.
 func consumeSingleTURNFrame(b []byte) (int, error) {
 	// Too short to determine if ChannelData or STUN
-	if len(b) < 9 {
+	if len(b) < channelDataHeaderSize {
 		return 0, errIncompleteTURNFrame
 	}
 
-	var datagramSize uint16
+	// Sizes are computed as int: the length fields can be up to 0xFFFF and
+	// header and padding must not wrap around.
+	var datagramSize int
 	switch {
-	case stun.IsMessage(b):
-		datagramSize = binary.BigEndian.Uint16(b[2:4]) + stunHeaderSize
+	// A channel number can not be mistaken for a STUN message type (whose two most
+	// significant bits are zero), while ChannelData payload can look like a STUN header.
 	case ChannelNumber(binary.BigEndian.Uint16(b[0:2])).Valid():
-		datagramSize = binary.BigEndian.Uint16(b[channelDataNumberSize:channelDataHeaderSize])
-		if paddingOverflow := (datagramSize + channelDataPadding) % channelDataPadding; paddingOverflow != 0 {
-			datagramSize = (datagramSize + channelDataPadding) - paddingOverflow
-		}
-
-		datagramSize += channelDataHeaderSize
+		datagramSize = int(binary.BigEndian.Uint16(b[channelDataNumberSize:channelDataHeaderSize]))
+		datagramSize = nearestPaddedValueLength(datagramSize) + channelDataHeaderSize
 	case len(b) < stunHeaderSize:
 		return 0, errIncompleteTURNFrame
+	case stun.IsMessage(b):
+		datagramSize = int(binary.BigEndian.Uint16(b[2:4])) + stunHeaderSize
 	default:
 		return 0, errInvalidTURNFrame
 	}
 
-	if len(b) < int(datagramSize) {
+	if len(b) < datagramSize {
 		return 0, errIncompleteTURNFrame
 	}
 
-	return int(datagramSize), nil
+	return datagramSize, nil
 }
 
 // ReadFrom implements ReadFrom from net.PacketConn.
